@@ -4,6 +4,7 @@ R-model: Python float == mathematical real, int == mathematical integer, transce
 uninterpreted (see mathx.py). Every truthiness test of a SymBool forks the path.
 """
 import fractions
+import os
 import math
 import z3
 import time as _time
@@ -139,6 +140,11 @@ class Ctx:
         self.defined = []            # (z3 bool that must hold, description) definedness obligations
         self.solver = z3.Solver()
         self.solver.set('timeout', feas_timeout_ms)
+        # z3's wall-clock timeout is not always honoured inside non-linear arithmetic; the resource limit is (deterministic counter)
+        try:
+            self.solver.set('rlimit', int(os.environ.get('VERIF_FEAS_RLIMIT', '0')) or feas_timeout_ms * 20000)
+        except Exception:  # noqa
+            pass
         for a in self.assumptions:
             self.solver.add(a)
         self.max_decisions = max_decisions
